@@ -163,7 +163,7 @@ def main():
     repo = Repo(a.repo)
     jobs = []
     for fid, spec in specs.items():
-        if fid.startswith('lemma::') or getattr(spec, 'trusted', False) or a.filter not in fid:
+        if fid.startswith('lemma::') or fid.startswith('@') or getattr(spec, 'trusted', False) or a.filter not in fid:
             continue
         fn, module, ci = repo.find_function(spec.file, spec.qualname)
         muts = [m for m in mutants_of(fn) if m]
